@@ -17,6 +17,9 @@ META = {
               'get_cell_at(i) reads slot i',
         'R3': 'provenance: compute_cell_integral initialises with (this cell, its data) and feeds each tetrahedron of this cell\'s decomposition as (v0, v1, v2, this cell\'s generator); '
               'face integrals are initialised for and fed by the plane index of the tetrahedron (C03.R6)',
+        'R5': 'decomposition without stored faces (structure): every vertex of the cell is visited once, in storage order, and yields exactly six tetrahedra t = 0..5 with base '
+              '(proj[t], proj[t-1 mod 6], vertex) and label dual[t div 2], where proj[2i] is the projection of the generator onto plane dual[i] and proj[2i+1] its projection onto the '
+              'intersection line of planes dual[i+1] and dual[i]; hence all three base points of a tetrahedron lie in the plane it is labelled with (given C19.R2/R3 and C01.R5)',
         'R4': 'cells with and without stored faces go through the same integral drivers; only the decomposition iterator differs and it is selected by the cell\'s type state (C15.R3)',
     },
     'explanation': 'Decides who can implement and call what (by type-checking downstream witnesses against the current tree), that extra data and cells stay aligned by slot under masks, '
@@ -31,7 +34,7 @@ def run(ctx):
     for cfg in ctx.configs_used:
         F = ctx.facts(cfg)
         sfx = '' if cfg == 'default' else '@' + cfg
-        fns = (r1, r2, r3, r4) if cfg == 'default' else (r2,)
+        fns = (r1, r2, r3, r4, r5) if cfg == 'default' else (r2,)
         for fn in fns:
             rule = 'C14.' + fn.__name__.upper()
             ctx.guarded(rule, 'evaluate' + sfx, lambda: fn(ctx, F, rule, sfx))
@@ -160,3 +163,88 @@ def r3(ctx, F, rule, sfx):
 def r4(ctx, F, rule, sfx):
     from . import c15
     c15.r3(ctx, F, rule, sfx)
+
+
+def r5(ctx, F, rule, sfx):
+    import re
+    lv = [b for b in F.bodies if 'DecompositionWithoutFaces' in b['path'] and b['kind'] != 'Closure']
+    load = [b for b in lv if b['path'].endswith('::load_vertex')]
+    nxt = [b for b in lv if b['path'].endswith('::next')]
+    new = [b for b in lv if b['path'].endswith('::new')]
+    if len(load) != 1 or len(nxt) != 1 or len(new) != 1:
+        raise AnalysisIncomplete('face-less decomposition bodies: load %d, next %d, new %d' % (len(load), len(nxt), len(new)))
+    load, nxt, new = load[0], nxt[0], new[0]
+    no = ['geometry::Plane::project_onto', 'geometry::Plane::project_onto_intersection']
+    cell = I.Sym(nf.sym_atom('cell'), 'voronoi::convex_cell::ConvexCell<M>')
+    DW = 'voronoi::convex_cell::DecompositionWithoutFaces'
+
+    def state(t, vert, projs):
+        return I.St(DW, 'DecompositionWithoutFaces', {'cur_vertex_idx': RF.sym('vi'), 'cur_tet_idx': t, 'cur_vertex': vert, 'projections': projs})
+    # load_vertex: which projections are stored where
+    ip = I.Interp(F, no_inline=no)
+    ip.unroll_limit = 8
+    r = ip.ref_to(state(RF.const(0), I.Sym(nf.sym_atom('oldv'), 'voronoi::convex_cell::Vertex'), I.arr([I.sym_vec3('p%d' % i) for i in range(6)])), mut=True)
+    ip.call_body(load, [r, ip.ref_to(cell)])
+    ctx.evaluations += ip.evaluations
+    after = I.read_lv(r.lv)
+    w = where(load)
+    ctx.check(rule, 'loads-vertex-of-current-index' + sfx, repr(I.frozen(I.get_field(after, 'cur_vertex'))) == 'cell.vertices[vi]', repr(I.get_field(after, 'cur_vertex'))[:60], 'convex_cell.vertices[cur_vertex_idx]', w, key_extra='vertex')
+    pr = I.get_field(after, 'projections')
+    onplanes = {}
+    pl = lambda k: 'cell.clipping_planes[cell.vertices[vi].dual[%d]].plane' % k
+    for i in range(6):
+        t = repr(I.frozen(I.get_index(pr, RF.const(i))))
+        m1 = re.match(r'call:geometry::Plane::project_onto\((.*), cell\.loc\)$', t)
+        m2 = re.match(r'call:geometry::Plane::project_onto_intersection\((.*\.plane), (.*\.plane), cell\.loc\)$', t)
+        k = i // 2
+        if i % 2 == 0:
+            ok = bool(m1) and m1.group(1) == pl(k)
+            onplanes[i] = {k} if ok else set()
+            want = 'planes[dual[%d]].project_onto(generator)' % k
+        else:
+            ok = bool(m2) and m2.group(1) == pl((k + 1) % 3) and m2.group(2) == pl(k)
+            onplanes[i] = {k, (k + 1) % 3} if ok else set()
+            want = 'planes[dual[%d]].project_onto_intersection(planes[dual[%d]], generator)' % ((k + 1) % 3, k)
+        ctx.check(rule, 'projection-%d%s' % (i, sfx), ok, t[-130:], want, w, key_extra='proj:%d' % i)
+    # next: six tetrahedra per vertex
+    for t in range(6):
+        ip = I.Interp(F, no_inline=no + [load['path']])
+        V_ = I.Sym(nf.sym_atom('V'), 'voronoi::convex_cell::Vertex')
+        r2 = ip.ref_to(state(RF.const(t), V_, I.arr([I.sym_vec3('p%d' % i) for i in range(6)])), mut=True)
+        v, _ = ip.call_body(nxt, [r2, ip.ref_to(cell)])
+        ctx.evaluations += ip.evaluations
+        some = None
+        cond = None
+        for conds, leaf in cases(v):
+            if isinstance(leaf, I.St) and leaf.variant == 'Some':
+                some, cond = leaf.fields[0], conds
+        wn = where(nxt)
+        if some is None:
+            ctx.bad(rule, 'tetrahedron-%d%s' % (t, sfx), repr(v)[:120], 'a tetrahedron while vertices remain', wn, key_extra='tet:%d' % t)
+            continue
+        label = repr(I.frozen(I.get_field(some, 'plane_idx')))
+        vs = [repr(I.frozen(I.get_index(I.get_field(some, 'vertices'), RF.const(i)))).replace(' ', '') for i in range(3)]
+        pn = lambda i: 'DVec3{x:p%d.x,y:p%d.y,z:p%d.z}' % (i, i, i)
+        ok = label == 'V.dual[%d]' % (t // 2) and vs == [pn(t), pn((t + 5) % 6), 'V.loc']
+        ctx.check(rule, 'tetrahedron-%d%s' % (t, sfx), ok, 'label %s, base %s' % (label, [x[-12:] for x in vs]), 'label dual[%d], base (proj[%d], proj[%d], vertex)' % (t // 2, t, (t + 5) % 6), wn, key_extra='tet:%d' % t)
+        # plane membership of the base points (by provenance of the projections)
+        mem = (t // 2) in onplanes.get(t, set()) and (t // 2) in onplanes.get((t + 5) % 6, set())
+        ctx.check(rule, 'base-in-labelled-plane-%d%s' % (t, sfx), mem, 'proj[%d] on planes %s, proj[%d] on planes %s' % (t, sorted(onplanes.get(t, ())), (t + 5) % 6, sorted(onplanes.get((t + 5) % 6, ()))),
+                  'both projections lie on plane dual[%d] (the vertex lies on all three)' % (t // 2), wn, key_extra='member:%d' % t)
+        okc = cond is not None and [repr(c) for c in cond] == ['(vi < len(cell.vertices))']
+        ctx.check(rule, 'continues-while-vertices-remain-%d%s' % (t, sfx), okc, [repr(c) for c in (cond or [])], 'Some iff cur_vertex_idx < vertices.len()', wn, key_extra='cond:%d' % t)
+        st = I.read_lv(r2.lv)
+        nt = dtab.evaluate(as_rf(I.get_field(st, 'cur_tet_idx')), lambda leaf: True)
+        nv = dtab.evaluate(as_rf(I.get_field(st, 'cur_vertex_idx')), lambda leaf: True)
+        want_t, want_v = ((t + 1, RF.sym('vi')) if t < 5 else (0, RF.sym('vi') + 1))
+        ctx.check(rule, 'advance-%d%s' % (t, sfx), as_rf(nt) == RF.const(want_t) and as_rf(nv) == want_v, 'next state: tet %r, vertex %r' % (nt, nv), 'tet %d, vertex %r' % (want_t, want_v), wn, key_extra='advance:%d' % t)
+        if t == 5:
+            reloaded = 'load_vertex' in repr(I.get_field(st, 'cur_vertex')) or 'load_vertex' in repr(I.get_field(st, 'projections'))
+            ctx.check(rule, 'reloads-next-vertex' + sfx, reloaded, repr(I.get_field(st, 'cur_vertex'))[:100], 'load_vertex for the next vertex when one remains', wn, key_extra='reload')
+    # new: starts at vertex 0, tetrahedron 0, loaded
+    ip = I.Interp(F, no_inline=no + [load['path']])
+    v, _ = ip.call_body(new, [ip.ref_to(cell)])
+    ctx.evaluations += ip.evaluations
+    lc = [e for e in ip.events if e.callee == load['path']]
+    ok = len(lc) == 1 and as_rf(I.get_field(lc[0].fargs[0], 'cur_vertex_idx')).is_zero() and as_rf(I.get_field(lc[0].fargs[0], 'cur_tet_idx')).is_zero()
+    ctx.check(rule, 'starts-at-first-vertex' + sfx, ok, '%d load(s)' % len(lc), 'cur_vertex_idx = 0, cur_tet_idx = 0, vertex loaded', where(new), key_extra='start')
